@@ -28,7 +28,7 @@ What is proved, for ALL inputs (no side condition on `u`, `u0`, `u1`):
   `g2_map_ne_none`, `g2_map2_ne_none` show that `none` is never returned;
 * `g1_map_inSub`, `g1_map2_inSub`, `g2_…`: the subgroup clause, UNDER THE EXPLICIT HYPOTHESES of C17
   on the curve groups — `hexp : ∀ g, (hEffG1 * r) • g = 0` for `E₁(Fq)` and
-  `hord : ∀ g, (h₂ * r) • g = 0` for `E₂(Fq2)` — which are out of reach of this development;
+  `hord : ∀ g, (h₂ * r) • g = 0` for `E₂(Fq2)` — which are hypotheses HERE and are PROVED in PP.Props.CurveOrder (hypothesis-free versions `g1_map_inSub'` ... are instantiated there);
 * `g1_map2_prefix_wrong`, `g1_map2_prefix_offcurve`, `g1_map2_prefix_not_inSubgroup`, `g2_…`: the
   pre-fix code returned, for `u0 = u1 = 0`, a different result, which is not on the curve (hence not
   in the subgroup); the fixed code passes the same executable test.
